@@ -56,10 +56,11 @@ where
     fn decode(&self) -> Result<Vec<u8>, ()> {
         let input = self.as_ref();
         let mut result: Vec<u8> = Vec::with_capacity(input.len() * 3 / 4);
+        let group_count = (input.len() + 3) / 4;
 
-        for group in input.as_bytes().chunks(4) {
+        for (group_index, group) in input.as_bytes().chunks(4).enumerate() {
             let mut decoded: u32 = 0;
-            let mut broken: usize = 4;
+            let mut broken: usize = group.len();
 
             for (i, tem) in group.iter().enumerate() {
                 match tem {
@@ -74,11 +75,24 @@ where
                             return Err(());
                         }
 
+                        // ... and only completes the final group, with nothing but padding after it
+                        if group.len() != 4
+                            || group_index + 1 != group_count
+                            || group[i..].iter().any(|c| *c != b'=')
+                        {
+                            return Err(());
+                        }
+
                         broken = i;
                         break;
                     }
                     _ => return Err(()),
                 }
+            }
+
+            // A single trailing symbol does not encode a whole byte
+            if broken < 2 {
+                return Err(());
             }
 
             result.extend_from_slice(&decoded.to_be_bytes()[1..broken]);
